@@ -3,6 +3,7 @@
 usage: python -m rtc.child_map <job.pickle>       job = {prog, folder, storage, cleanup, fault, logfile, parallel}
 fault: None | {"kind": "raise", "func": name, "call": n}
             | {"kind": "kill-before-open", "n": k}     os._exit before the k-th open-for-write after the first user call
+            | {"kind": "kill-after-rename", "n": k}    os._exit right after the k-th rename inside the run folder
             | {"kind": "torn-write", "n": k}           the k-th file opened for writing receives half of its bytes, then os._exit
             | {"kind": "count"}                        only count the write events
 Prints RESULT<json> on success, FAILED<json> if map raised.
@@ -69,6 +70,40 @@ def main() -> int:
                     return Torn(real_open(self, mode, *a, **kw))
             return real_open(self, mode, *a, **kw)
         pathlib.Path.open = patched
+    if fault and fault["kind"] in ("kill-after-rename", "count"):
+        # the process dies right after its n-th rename inside the run folder (what has not been flushed by then is lost)
+        counter["renames"] = 0
+        real_replace, real_rename, os_replace, os_rename = pathlib.Path.replace, pathlib.Path.rename, os.replace, os.rename
+
+        def after(dst):
+            if str(dst).startswith(folder):
+                k = counter["renames"]
+                counter["renames"] += 1
+                note(f"RENAME {k} {dst}")
+                if fault["kind"] == "kill-after-rename" and k == fault["n"]:
+                    note("KILL")
+                    os._exit(137)
+
+        def p_replace(self, target):
+            r = real_replace(self, target)
+            after(target)
+            return r
+
+        def p_rename(self, target):
+            r = real_rename(self, target)
+            after(target)
+            return r
+
+        def o_replace(src, dst, *a, **kw):
+            r = os_replace(src, dst, *a, **kw)
+            after(dst)
+            return r
+
+        def o_rename(src, dst, *a, **kw):
+            r = os_rename(src, dst, *a, **kw)
+            after(dst)
+            return r
+        pathlib.Path.replace, pathlib.Path.rename, os.replace, os.rename = p_replace, p_rename, o_replace, o_rename
     if fault and fault["kind"] == "raise":
         class Boom(RuntimeError):
             pass
@@ -87,7 +122,7 @@ def main() -> int:
         print("FAILED" + json.dumps({"type": type(e).__name__, "msg": str(e)[:300], "opens": counter["opens"]}))
         return 0
     outs = {o: progs.to_nested(res[o].output) for f in prog["funcs"] for o in f["outputs"]}
-    print("RESULT" + json.dumps({"outputs": outs, "opens": counter["opens"]}))
+    print("RESULT" + json.dumps({"outputs": outs, "opens": counter["opens"], "renames": counter.get("renames", 0)}))
     return 0
 
 
